@@ -95,8 +95,12 @@ def conc_value(I, m, v, heap):
         return conc_value(I, m, v.val, heap)
     if isinstance(v, VTuple):
         return [conc_value(I, m, x, heap) for x in v.items]
+    if isinstance(v, VOpaque):
+        return {'$opaque': v.label}
     if isinstance(v, VRef):
         c = heap.get(v.loc)
+        if isinstance(c, HDict):
+            return [] if isinstance(c.content, VMap) else None
         if isinstance(c, HList):
             if isinstance(c.content, VSeq):
                 return conc_seq(m, c.content)
